@@ -34,6 +34,9 @@ LEAN_TARGETS = ["NauyacaVerif.Props.C14"]
 THEOREMS = [f"NauyacaVerif.C14.{t}" for t in
             ("upload_effects", "upload_target_canonical", "tree_target_resolved", "upload_confined", "upload_content", "upload_guarded", "success_guarded",
              "nonsuccess_no_change", "nonsuccess_no_dirs", "success_upload", "success_delete")]
+LEAN_TARGETS = LEAN_TARGETS + ["NauyacaVerif.Props.Tr.UploadGate"]
+TRANSLATED = ["uploadGate"]
+THEOREMS = THEOREMS + ["NauyacaVerif.Translated.uploadGate_eq", "NauyacaVerif.Translated.handleUpload_gate"]
 EXTRACT: list[str] = []
 ASSUMPTIONS = [
     "that the target is fully resolved is no longer assumed of Path.resolve(): the handler checks realpath(target) == target and the theorems carry that fixpoint (upload_target_canonical); for the symlink-tree instance it is PROVED that such a fixpoint (reached without a loop) has no symlink among its prefixes and that the kernel-style walk ends at the target itself (tree_target_resolved)",
